@@ -11,6 +11,7 @@ import (
 	"fmt"
 	"os"
 	"path/filepath"
+	"runtime/debug"
 	"sort"
 	"strings"
 )
@@ -136,8 +137,37 @@ func main() {
 	distinct := map[string]bool{}
 	nontrivial := map[string]bool{}
 	var terms []string
-	for i, s := range specs {
-		co := p.Run(s.spec)
+	// A panic that escapes from a property's Run comes from library code called
+	// outside any observed step (building calls, reading the table back): the
+	// case cannot be judged; it is set aside with its input and reported by
+	// check.py as a broken correspondence (the model does not panic there).
+	type crashRecord struct {
+		Origin string          `json:"origin"`
+		Spec   json.RawMessage `json:"spec"`
+		Panic  string          `json:"panic"`
+		Stack  string          `json:"stack"`
+	}
+	var crashes []crashRecord
+	runOne := func(spec json.RawMessage) (co CaseOut, crashed *crashRecord) {
+		defer func() {
+			if r := recover(); r != nil {
+				st := string(debug.Stack())
+				if len(st) > 3000 {
+					st = st[:3000]
+				}
+				crashed = &crashRecord{Spec: spec, Panic: fmt.Sprint(r), Stack: st}
+			}
+		}()
+		return p.Run(spec), nil
+	}
+	for _, s := range specs {
+		co, crashed := runOne(s.spec)
+		if crashed != nil {
+			crashed.Origin = s.origin
+			crashes = append(crashes, *crashed)
+			continue
+		}
+		i := len(records)
 		rec := caseRecord{Index: i, Origin: s.origin, Spec: s.spec, Observed: co.Desc, Size: co.Size, Tags: co.Tags, Nontrivial: co.Nontrivial}
 		if *keepCoq {
 			rec.CoqTerm = co.Coq
@@ -192,23 +222,32 @@ func main() {
 	if err := os.WriteFile(filepath.Join(*out, "cases.json"), mustJSON(records), 0o644); err != nil {
 		panic(err)
 	}
+	if len(crashes) > 0 {
+		if len(crashes) > 50 {
+			crashes = crashes[:50]
+		}
+		if err := os.WriteFile(filepath.Join(*out, "crashes.json"), mustJSON(crashes), 0o644); err != nil {
+			panic(err)
+		}
+	}
 	stats := map[string]interface{}{
-		"property":            id,
-		"seed":                *seed,
-		"tier":                *tier,
-		"evaluations":         len(terms),
-		"distinct":            len(distinct),
-		"distinct_nontrivial": len(nontrivial),
-		"shards":              nShards,
-		"per_shard":           *perShard,
-		"distribution":        tagCount,
-		"rule":                p.Rule,
-		"exhaustive_part":     p.Exhaustive,
-		"imports":             p.Imports,
-		"case_fn":             p.CaseFn,
-		"model_fn":            p.ModelFn,
-		"case_type":           p.CaseType,
-		"assumptions":         p.Assumptions,
+		"crashed_outside_observed_steps": len(crashes),
+		"property":                       id,
+		"seed":                           *seed,
+		"tier":                           *tier,
+		"evaluations":                    len(terms),
+		"distinct":                       len(distinct),
+		"distinct_nontrivial":            len(nontrivial),
+		"shards":                         nShards,
+		"per_shard":                      *perShard,
+		"distribution":                   tagCount,
+		"rule":                           p.Rule,
+		"exhaustive_part":                p.Exhaustive,
+		"imports":                        p.Imports,
+		"case_fn":                        p.CaseFn,
+		"model_fn":                       p.ModelFn,
+		"case_type":                      p.CaseType,
+		"assumptions":                    p.Assumptions,
 	}
 	if err := os.WriteFile(filepath.Join(*out, "stats.json"), mustJSON(stats), 0o644); err != nil {
 		panic(err)
